@@ -370,7 +370,7 @@ def serial(ctx):
 
 
 def run(ctx):
-    if not cl.prepare(ctx, ['Spec.Lifecycle']):
+    if not cl.prepare(ctx, ['Spec.Lifecycle', 'Model.SerialTask', 'Model.SerialEager']):
         return
     if ctx.replay and 'serial' in ctx.replay:
         global SERIAL
